@@ -583,6 +583,7 @@ func C19(p *core.Prog, rep *core.Report) {
 	list2SizeWithCursor(p, rep)
 	dt4SizePersisted(p, rep)
 	dt2EncodersUseFields(p, rep)
+	dt5EncodersFresh(p, rep)
 	flt1ScoreCodec(p, rep)
 	dt1ExistenceByError(p, rep)
 	// S4: every structure update is a batch: the batch durability clauses (C04) apply
